@@ -995,7 +995,7 @@ def stale_list_search(cx, bad):
         return out
     reqs_by_case = getattr(cx, "s2_requests", {})
     cands = [c for c in candidates(bad) if " mode=arb:" in c[0]]
-    if len(cands) < 4:
+    if len(cands) < 1 and not [c for c in candidates(bad) if " mode=arb:" not in c[0]]:
         extra = run_trace(4000 if cx.tier == "quick" else 20000, cx.seed * 31 + 77, "default", "0" if cx.P["unsafe"] == "0" else "mix")
         more = [(case_of(req), out) for req, out in extra if " FAIL " in out]
         for req, out in extra:
@@ -1022,6 +1022,51 @@ def stale_list_search(cx, bad):
                 nd = data[:used] + bytes([j])
                 t = [x for x in cl.split(" ") if not x.startswith("mode=") and not x.startswith("valid=")]
                 lines.append(" ".join(t) + " mode=arb:" + nd.hex())
+    # runs of the seeded source: replay the traced opcode sequence up to that choice through `steer` (which computes
+    # fuzzer bytes for an opcode plan), then force the position of the extra opcode in the loop's list
+    INTLIKE = {"49", "4a", "4b", "4d", "4c", "8a", "8b"}
+    name_of = {v: k for k, v in op_bytes().items()}
+    tables = {}
+    for l in harness_lines(["tables"]).split("\n"):
+        t = l.split(" ")
+        if t[0] == "table":
+            tables[int(t[1])] = [t[2][i:i + 2] for i in range(0, len(t[2]), 2)]
+    cps = []
+    for cl, k, loop, guards in [c for c in candidates(bad) if " mode=arb:" not in c[0]][:12] + cands[:4]:
+        req = reqs_by_case.get(cl)
+        if not req:
+            continue
+        r = toks(req)
+        p_ = int(r.get("P", "2"))
+        st = r.get("steps", "-").split(";")
+        if k > len(st):
+            continue
+        il = [x for x in tables.get(p_, []) if x in INTLIKE]
+        plan = []
+        for stp in st[:k]:
+            f = stp.split("/")
+            opx, argx = f[0], f[1]
+            if opx in INTLIKE:
+                val = 0
+                if opx == "49":
+                    try:
+                        val = int(bytes.fromhex(argx).decode().strip()) if argx not in ("-", "e") else 0
+                    except Exception:
+                        val = 0
+                plan.append("Int:%02x%s" % (il.index(opx) if opx in il else 0, (val & 0xffffffff).to_bytes(4, "little").hex()))
+            else:
+                plan.append(name_of.get(opx, "?"))
+        lo = [loop[i:i + 2] for i in range(0, len(loop), 2)] if loop != "e" else []
+        go = set(guards[i:i + 2] for i in range(0, len(guards), 2))
+        cfg = "P=%d unsafe=%s ext=%s buf=%s mask=0 rate=0000000000000000" % (p_, r.get("unsafe", "0"), r.get("ext", "0"), r.get("buf", "0"))
+        for j, opx in enumerate(lo):
+            if opx not in go and opx in name_of and "?" not in plan and len(lo) <= 256:
+                cps.append((cfg, plan + ["%s@%d" % (name_of[opx], j)]))
+    if cps:
+        try:
+            lines += [l for l in steer_plans(cps[:80], extra=0) if l]
+        except Exception as e:
+            cx.corr.append(dict(stream="S2", count=1, first="steer for the stale-list plans could not run: %s" % str(e)[:200]))
     cx.cov["targeted_inputs_tried"] = cx.cov.get("targeted_inputs_tried", 0) + len(lines)
     if not lines:
         return
